@@ -21,7 +21,7 @@ import time
 
 from .. import core
 
-GROUP = {"Qarray": "C17", "Qloop": "C12", "Int60": "C03", "Hazard": "C15", "Mpool": "C14", "Dict": "C16", "Ident": "C09", "Swsr": "C15"}
+_GROUP = {"Qarray": "C17", "Qloop": "C12", "Int60": "C03", "Hazard": "C15", "Mpool": "C14", "Dict": "C16", "Ident": "C09", "Swsr": "C15", "Hash": "C16", "Hashmap": "Hashmap"}
 _done = {}
 
 
@@ -351,13 +351,67 @@ def diff_swsr(ctx, rng):
     return None
 
 
-DIFF = {"Swsr": diff_swsr, "Ident": diff_ident, "Dict": diff_dict, "Qarray": diff_qarray, "Qloop": diff_qloop, "Int60": diff_int60, "Hazard": diff_hazard, "Mpool": diff_mpool}
+def diff_hash(ctx, rng):
+    exe = ctx.link("gen_hash", ["gen_hash.c"], exclude=["hashmap.c"])
+    M = 2 ** 64
+    ks = [0, 1, 2, 255, 256, 2 ** 31 - 1, 2 ** 31, 2 ** 31 + 1, 2 ** 32 - 1, 2 ** 32, 2 ** 63, M - 1] + \
+         [(b << (8 * j)) for j in range(8) for b in (1, 127, 128, 255)] + [rng.next() for _ in range(500)] + \
+         [rng.next() | (1 << 31) for _ in range(50)] + [rng.next() & ~(1 << 31) & (M - 1) for _ in range(50)]
+    lines = ["H %d" % k for k in ks]
+    rc, out, err = core.run_lines(exe, lines + ["Q"], timeout=120)
+    if rc != 0 or len(out) != len(lines):
+        return {"error": "gen_hash harness failed rc=%s %s" % (rc, err[-200:])}
+    v, m1 = coq_eval(ctx, "From QV Require Import Dict.Model.", "map hash64 [%s]%%N" % "; ".join(map(str, ks)))
+    w, m2 = coq_eval(ctx, "From QV Require Hashmap.Model.", "map Hashmap.Model.qt_hash64 [%s]%%N" % "; ".join(map(str, ks)))
+    if v is None or w is None:
+        return {"error": "model evaluation failed: " + (m1 or m2)}
+    for ln, o, a, b in zip(lines, out, v, w):
+        if o != "h %d" % a or o != "h %d" % b:
+            return {"kernel": "qt_hash64(key)", "input": ln, "c_result": o, "model_result": "h %d (Dict.Model) / h %d (Hashmap.Model)" % (a, b)}
+    return None
+
+
+def diff_hashmap(ctx, rng):
+    exe = ctx.link("gen_hash", ["gen_hash.c"], exclude=["hashmap.c"])
+    ps_ = [0, 1, 2, 3, 4, 5, 7, 8, 9, 100, 512, 513, 1000, 1024, 1025, 2 ** 20, 2 ** 20 + 1, 2 ** 40 - 1, 2 ** 40, 2 ** 62 + 1, 2 ** 63] + \
+          [2 ** rng.range(1, 40) + rng.range(-2, 2) for _ in range(100)]
+    cs = []
+    for _ in range(200):
+        ps = rng.choice([64, 128, 256, 1024, 4096, 8192])
+        bs = rng.choice([1, 2, 4, 8])
+        me = 2 * ps // 16
+        e = rng.choice([1, me - 1, me, me + 1, 100, 2 * me, 3 * me, 3 * me + 1, rng.range(1, 5000), 2 ** rng.range(3, 14) + rng.range(-1, 1)])
+        cs.append((max(1, e), ps, bs))
+    lines = ["P %d" % k for k in ps_] + ["C %d %d %d" % c for c in cs]
+    rc, out, err = core.run_lines(exe, lines + ["Q"], timeout=120)
+    if rc != 0 or len(out) != len(lines):
+        k = min(len(out), len(lines) - 1)
+        return {"kernel": "src/hashmap.c sizes", "input": lines[k], "c_result": "crashed / hung (rc=%s)" % rc, "model_result": "defined"}
+    imp = "From QV Require Hashmap.Model."
+    pv, m1 = coq_eval(ctx, imp, "map Hashmap.Model.encompassing_power_of_two [%s]%%N" % "; ".join(map(str, ps_)))
+    cv, m2 = coq_eval(ctx, imp, "(flat_map (fun c => match c with (e, ps, bs) => let t := Hashmap.Model.create_raw bs (2 * ps / 16) e in "
+                                "[Hashmap.Model.nent t; Hashmap.Model.mask t] end) [%s])%%N" % "; ".join("(%d, %d, %d)" % c for c in cs))
+    if pv is None or cv is None:
+        return {"error": "model evaluation failed: " + (m1 or m2)}
+    model = ["p %d" % x for x in pv] + ["c %d %d" % (cv[2 * i], cv[2 * i + 1]) for i in range(len(cs))]
+    for ln, o, m in zip(lines, out, model):
+        if o != m:
+            return {"kernel": "encompassing_power_of_two(k)" if ln[0] == "P" else "qt_hash_internal_create: entries pagesize bucketsize; result = num_entries mask",
+                    "input": ln, "c_result": o, "model_result": m}
+    return None
+
+
+DIFF = {"Hash": diff_hash, "Hashmap": diff_hashmap, "Swsr": diff_swsr, "Ident": diff_ident, "Dict": diff_dict, "Qarray": diff_qarray, "Qloop": diff_qloop, "Int60": diff_int60, "Hazard": diff_hazard, "Mpool": diff_mpool}
 
 
 # ---------------------------------------------------------------------------------------------- entry point
-def regen(ctx, names):
+def regen(ctx, names, group=None):
     """regenerate Gen/<Unit>.v for the units in `names` from core.REPO and rebuild their tie theorems"""
-    key = (id(ctx), tuple(names))
+    GROUP = dict(_GROUP)
+    if group is not None:
+        for nm in names:
+            GROUP[nm] = group
+    key = (id(ctx), tuple(names), group)
     if key in _done:
         return _done[key]
     t0 = time.time()
